@@ -14,7 +14,8 @@
    state; [final init ops] is its last state, [None] after a use of a destroyed object ([Fault]).
    All theorems quantify over ALL histories [ops] (induction over the list, no bound). *)
 From MptV Require Import Base.Mem C15.RefcountModel C15.RefcountSpec C15.RefcountCounter C15.RefcountInv
-  C15.RefcountSteps C15.RefcountOps C15.RefcountRun C15.RefcountAssign C15.RefcountAbs.
+  C15.RefcountSteps C15.RefcountOps C15.RefcountRun C15.RefcountAssign C15.RefcountRel C15.RefcountFrame
+  C15.RefcountSim C15.RefcountRefine.
 Local Open Scope N_scope.
 
 (* ---- the counter ---- *)
@@ -76,19 +77,102 @@ Theorem C15_unreachable_only_if_forced :
     held s o = 0 -> 0 < oext x.
 Proof. exact unreachable_is_forced_l. Qed.
 
-(* the specification (C15/RefcountSpec.v) keeps no counter: it DERIVES "alive" and the count an object
-   must show from the handles alone ([salive], [stotal]).  Applied to the handles of any state a
-   history reaches ([abs] forgets counters, destruction flags, locals and the call log) it yields
-   exactly what the model reads from its counter fields and destruction flags, and the same
-   "unreachable but alive" verdict *)
+(* ---- refinement: the mechanism model refines the handle-multiset specification ----
+   The specification (C15/RefcountSpec.v) keeps NO counter and NO destruction flag.  Its state is the
+   created objects (kind, handles the environment holds, handle owned by the object) and the slots; its
+   step [sstep] only moves handles ("slot d := what slot si holds", refused when [shareable] says the
+   multiset cannot take one more); [salive], [stotal], [shareable] and the observation [sobserve] are
+   DERIVED from the handles.  [Refines s ss] (C15/RefcountRel.v): the model state [s] satisfies the
+   invariant with no handle in a local, has the slots of [ss], and every object has in [ss] a record
+   of the same kind with the same environment handles and, while it exists, the same owned handle. *)
+
+(* related states are observed identically: counters, destruction, slots, result (the vtable call log,
+   which the specification does not have, aside) and the LeakSanitizer verdict *)
+Theorem C15_refinement_preserves_observation :
+  forall s ss, Refines s ss ->
+    (forall t, sobserve ss t = strip (observe s t)) /\ sleaked ss = leaked s.
+Proof. exact (fun s ss RF => conj (observe_ref s ss RF) (sleaked_ref s ss RF)). Qed.
+
+(* STEP refinement, every one of the 24 operations, from EVERY pair of related states (not only reachable
+   ones): the model step does not fault, returns exactly the specification's output and ends in a state
+   related to the specification's next state *)
+Theorem C15_step_refines_spec :
+  forall s ss o, Refines s ss ->
+    exists s', step s o = Ok (s', snd (sstep ss o)) /\ Refines s' (fst (sstep ss o)).
+Proof. exact sim_step. Qed.
+
+(* the same with the abstraction FUNCTION [abs] (forget counters, destruction flags, locals, call log):
+   abs (model step s) = clean (spec step (abs s)) with the same output.  [sclean] erases the records of
+   objects the specification no longer counts as existing (it never erases anything itself, the model
+   clears the owned handle of a destroyed object); the uncleaned state is related as well, so it has
+   the same observation and the same future *)
+Theorem C15_step_commutes_with_abstraction :
+  forall s o, Wf s ->
+    exists s', step s o = Ok (s', snd (sstep (abs s) o)) /\ Wf s' /\
+      abs s' = sclean (fst (sstep (abs s) o)) /\ Refines s' (fst (sstep (abs s) o)).
+Proof. exact step_commutes_l. Qed.
+
+(* HISTORY refinement: for every history the sequence of observations of the model (result, every
+   counter field / destruction flag, every slot after every operation) IS the sequence the counter-free
+   specification derives by running its own steps; the final states are related *)
+Theorem C15_history_refines_spec :
+  forall ops,
+    map strip (fst (mrun init ops)) = fst (srun sinit ops) /\
+    exists s, final init ops = Some s /\ Refines s (snd (srun sinit ops)).
+Proof. exact history_refines_l. Qed.
+
+(* both ways to obtain a specification state for a reached model state — running the specification over
+   the history, or abstracting the model state — yield the model's observation and leak verdict *)
 Theorem C15_spec_observation_agrees :
   forall ops s, final init ops = Some s ->
-  forall t, sobserve (abs s) t = match observe s t with Obs o d h _ => Obs o d h [] | ObsFault => ObsFault end.
+  forall t, sobserve (snd (srun sinit ops)) t = strip (observe s t) /\ sobserve (abs s) t = strip (observe s t).
 Proof. exact history_observation_l. Qed.
 
 Theorem C15_spec_leak_agrees :
-  forall ops s, final init ops = Some s -> sleaked (abs s) = leaked s.
+  forall ops s, final init ops = Some s ->
+    sleaked (snd (srun sinit ops)) = leaked s /\ sleaked (abs s) = leaked s.
 Proof. exact history_leak_l. Qed.
+
+(* corollary, every history: an object is destroyed EXACTLY when the last handle on it is dropped — never
+   earlier, never later — where "the handles on it" are those of the specification state reached by the
+   specification's own steps (slots + handles owned by existing objects + environment handles); and the
+   counter field of an existing counted object is that number *)
+Theorem C15_destroyed_iff_last_handle_dropped :
+  forall ops, exists s, final init ops = Some s /\
+    length (objs s) = length (sobjs (snd (srun sinit ops))) /\
+    forall o x, nth_error (objs s) o = Some x ->
+      odead x = negb (salive (snd (srun sinit ops)) o) /\
+      (is_static (okind x) = false -> (odead x = true <-> stotal (snd (srun sinit ops)) o = 0)) /\
+      (odead x = false -> cls_of (okind x) = Counted -> ocnt x = stotal (snd (srun sinit ops)) o).
+Proof. exact destroyed_iff_no_handle_l. Qed.
+
+(* corollary: a share the counter cannot take (saturated: field = 2^64-1; or a kind without counter) is
+   REFUSED with the failure result of the operation (addref 0, conversion / traits init / defer error)
+   and changes nothing observable: every counter, destruction flag and slot as before *)
+Theorem C15_saturated_share_refused :
+  forall s ss op si b x t,
+  Refines s ss -> share_src op = Some si -> share_fail op = Some t ->
+  slot s si = Some b -> nth_error (objs s) b = Some x ->
+  (cls_of (okind x) = Unique \/ (cls_of (okind x) = Counted /\ ocnt x = CMAX)) ->
+  guard (hs s) (kind_at s) (held s) op = true ->
+  exists s', step s op = Ok (s', t) /\ Refines s' ss /\ strip (observe s' t) = strip (observe (clear_log s) t).
+Proof. exact refused_share_l. Qed.
+
+(* corollary: replacing a held reference, all three forms (conversion _mpt_metatype_wrap, mpt_array_clone,
+   reference<T>::operator=), ALL object kinds (owners of buffers included), target empty / held / same:
+   the target slot afterwards holds what the source holds and no other slot changes, i.e. the old
+   referent lost exactly one slot handle and the new one gained exactly one; the resulting state refines
+   "slot d := slot si", so every counter is again the number of handles and the old referent is
+   destroyed iff that was its last handle (C15_refinement_preserves_observation) *)
+Theorem C15_assign_any_form_releases_old_once_retains_new_once :
+  forall s ss op si d,
+  Refines s ss -> assign_op op = Some (si, d) ->
+  shareable_opt ss (slot s si) = true ->
+  guard (hs s) (kind_at s) (held s) op = true ->
+  exists s' t, step s op = Ok (s', t) /\ t <> OE /\ Refines s' (sput ss d (slot s si)) /\
+    hs s' = set_nth d (slot s si) (hs s) /\
+    forall o, (cnt (flat_map o2l (hs s')) o + ind (slot s d) o = cnt (flat_map o2l (hs s)) o + ind (slot s si) o)%nat.
+Proof. exact assign_l. Qed.
 
 (* the invariant is inductive: from ANY state that satisfies it (not only reachable ones) every
    operation succeeds without fault and re-establishes it with no handle left in a local *)
@@ -171,6 +255,39 @@ Example C15_ex_forced_max :
      Some (OD, [DCnt 1]); Some (OD, [DDead])].
 Proof. vm_compute. reflexivity. Qed.
 
+(* the refinement relation is inhabited at the start, and by every reached state (C15_history_refines_spec) *)
+Example C15_ex_refines_init : Refines init sinit /\ Wf init.
+Proof. split; [exact Refines_init|exact (Refines_wf _ _ Refines_init)]. Qed.
+
+(* a buffer owned by a meta buffer: dropping the owner destroys it and releases the buffer handle it owns;
+   the specification, run by its own steps, shows the same counters and destruction — and keeps the
+   record of the destroyed owner (which is why the commuting square is stated up to [sclean]) *)
+Example C15_ex_owner_history :
+  let ops := [ONew KBuf 6; OMetaBuf 6 0; OUnref 0; OArrClear 6]%nat in
+  map (fun r => match r with Obs t d _ _ => Some (t, d) | ObsFault => None end) (fst (srun sinit ops))
+  = [Some (OD, [DCnt 1]); Some (OD, [DCnt 2; DUni]); Some (OD, [DCnt 1; DDead]); Some (ORet 2, [DDead; DDead])] /\
+  fst (srun sinit ops) = map strip (fst (mrun init ops)) /\
+  match final init ops with
+  | Some s => abs s <> snd (srun sinit ops) /\ abs s = sclean (snd (srun sinit ops))
+  | None => False
+  end.
+Proof. vm_compute. repeat split. discriminate. Qed.
+
+(* the hypotheses of the refusal theorem are met by a reachable state (counter forced to the maximum),
+   those of the assignment theorem by another one (a counted metatype assigned over a geninfo) *)
+Example C15_ex_refusal_and_assign_states :
+  match final init [ONew KHCnt 0; OForce 0 CMAX]%nat, final init [ONew KHCnt 0; ONew KGen 1]%nat with
+  | Some s1, Some s2 =>
+      slot s1 0%nat = Some 0%nat /\
+      match nth_error (objs s1) 0%nat with Some x => cls_of (okind x) = Counted /\ ocnt x = CMAX | None => False end /\
+      guard (hs s1) (kind_at s1) (held s1) (OConv 0 1)%nat = true /\
+      guard (hs s1) (kind_at s1) (held s1) (OAddref 0 1)%nat = true /\
+      shareable_opt (abs s2) (slot s2 0%nat) = true /\
+      guard (hs s2) (kind_at s2) (held s2) (OConv 0 1)%nat = true
+  | _, _ => False
+  end.
+Proof. vm_compute. repeat split. Qed.
+
 Print Assumptions C15_raise_refuses_zero_and_max.
 Print Assumptions C15_lower_returns_remaining.
 Print Assumptions C15_counter_refines_spec.
@@ -179,6 +296,13 @@ Print Assumptions C15_unique_has_one_handle.
 Print Assumptions C15_history_never_faults.
 Print Assumptions C15_destroy_exactly_at_zero.
 Print Assumptions C15_unreachable_only_if_forced.
+Print Assumptions C15_refinement_preserves_observation.
+Print Assumptions C15_step_refines_spec.
+Print Assumptions C15_step_commutes_with_abstraction.
+Print Assumptions C15_history_refines_spec.
+Print Assumptions C15_destroyed_iff_last_handle_dropped.
+Print Assumptions C15_saturated_share_refused.
+Print Assumptions C15_assign_any_form_releases_old_once_retains_new_once.
 Print Assumptions C15_spec_observation_agrees.
 Print Assumptions C15_spec_leak_agrees.
 Print Assumptions C15_step_preserves_invariant.
